@@ -175,7 +175,7 @@ pub fn generate_c07(thorough: bool, seed: u64, part: (usize, usize), em: &mut Em
         let mut ti = av(2, &utf16("D")); ti.extend(av(7, &rr.bytes(8))); ti.extend(av(0, &[]));
         let scv = rr.bytes(8); let mut sc = [0u8; 8]; sc.copy_from_slice(&scv);
         for rcp in &["empty", "trunc:1", "trunc:2", "trunc:3", "trunc:4", "trunc:5", "trunc:40", "trunc:200", "raw:30", "raw:3082", "raw:308201", "raw:30820120a003", "raw:3080", "raw:30840000ffff", "nopka", "unsealed"] {
-            let c = crate::props::c01::Case { dom: "d".into(), user: "u".into(), pw: "p".into(), from_hash: false, ra: false, id: 1, flags, sc, ti: ti.clone(), reply: rcp.to_string(), reply1: "honest".into() };
+            let c = crate::props::c01::Case { dom: "d".into(), user: "u".into(), pw: "p".into(), from_hash: false, ra: false, id: 1, flags, sc, ti: ti.clone(), reply: rcp.to_string(), reply1: "honest".into(), pre: String::new() };
             crate::props::c01::run(em, &c);
             // the same damage to the first reply (the TSRequest carrying the CHALLENGE)
             let c1 = crate::props::c01::Case { reply: "honest".into(), reply1: if *rcp == "nopka" || *rcp == "unsealed" { "raw:3003a00100".to_string() } else { rcp.to_string() }, ..c };
